@@ -2,7 +2,8 @@
 import re
 THEOREMS_TIED = ["Rustic.Props.C10.overlap_no_loss", "Rustic.Props.C10.next_prune_recovers", "Rustic.Props.C10.step_preserves_Inv",
                  "Rustic.Props.C10.relied_pack_not_deletable", "Rustic.Props.C10.backup_backup_any_interleaving",
-                 "Rustic.Props.C10.slow_prune_can_lose"]
+                 "Rustic.Props.C10.slow_prune_can_lose", "Rustic.Props.C10.needed_marked_pack_recovered_whatever_its_age",
+                 "Rustic.Props.C10.kept_marked_packs_keep_their_blobs", "Rustic.Props.C10.backup_over_two_prunes_recovered"]
 
 TRUSTED = [
     "hand-written models lean/Rustic/Model/Interleave.lean (two-actor interleaving with ghost fields) and Model/Repo.lean (protocol model)",
@@ -18,14 +19,20 @@ ASSUMPTIONS = [
 ]
 RULE = ("op lines `c10 mon bfp seed,k,code`: a backup parked after its index load / before its k-th storage operation while the newest or all snapshots are forgotten "
         "and one or two prunes run (pure-reuse backups that add no blob, prune keeping nothing, plan times beyond keep-delete after pack creation; all 24 combinations "
-        "per round); op lines `c10 mon <bp|pb|bb> seed,k[,j]`: state = 3 backups of an evolving source, one snapshot forgotten and pruned two keep-delete periods ago (marked packs "
+        "per round; where all of >= 2 snapshots are forgotten in a two-prune history the forget may be staged over the two prunes; on half of them the follow-up prune runs keep-delete + 1 h after the last marking prune instead of 1 h after — the marks it meets are older than "
+        "keep-delete and what the late backup needs must be recovered all the same; on half of the two-prune combinations ANOTHER backup runs between the two prunes, so "
+        "that the second prune merges two small index files and rewrites the index file listing the still-marked packs — stats.json bfp.prune2.keeps-marked.REWRITES-their-index-file, "
+        "bfp.followup.recovers.marks-OLDER-than-keep-delete count the histories in which this really happened); op lines `c10 mon <bp|pb|bb> seed,k[,j]`: state = 3 backups of an evolving source, one snapshot forgotten and pruned two keep-delete periods ago (marked packs "
         "that the concurrent prune deletes), another forgotten just before; A in {backup of a version sharing content with the forgotten snapshots, prune}, "
         "parked before its k-th storage operation; B runs fully, or (seed,k,j) on a gated thread up to its j-th operation where it waits for A to finish; then follow-up prune one hour later + check(read_data) + read back of all snapshots. "
         "The interleaved trace (embedded at generation time) is judged by the Lean driver after every prefix. `c10 slowprune` replays theorem slow_prune_can_lose.")
 EXPLANATION = ("Theorems: the invariant Inv (I1 snapshot keys stored+listed and not planned for deletion, I2 relied keys listed since t0-span, I3 plans delete only "
                "packs marked keep-delete before the plan, I4 own packs) is preserved by all eight step kinds (step_preserves_Inv); hence overlap_no_loss for every "
                "reachable state of the interleaving model (any number of backups and prunes, induction over step lists) and next_prune_recovers (the follow-up prune "
-               "makes every snapshot readable); hypothesis keep-delete > backup duration + prune span is a guard of the model, span = 0 is the literal hypothesis; "
+               "makes every snapshot readable; next_prune_recovers_however_late: at any later time); needed_marked_pack_recovered_whatever_its_age (Recover tests the use, never the "
+               "age of the mark; no hypothesis relating mark time, keep-delete and now), kept_marked_packs_keep_their_blobs (an index rewrite that keeps a pack marked keeps its mark "
+               "time and blob list), backup_over_two_prunes_recovered (their composition over two prunes + snapshot save + follow-up prune at any later time), rewritten_index_listing_blobs_keeps_available / rewrite_dropping_blobs_loses "
+               "(the same on the protocol model with index files, which the driver's monitor judges); hypothesis keep-delete > backup duration + prune span is a guard of the model, span = 0 is the literal hypothesis; "
                "timing core, removal only by plan, plan discipline, backup||backup = any interleaving of step-wise safe writes; negative result "
                "slow_prune_can_lose (literal hypothesis insufficient for the real code: marks carry the plan time; open finding). Correspondence: after "
                "every prefix of the real interleaved trace nothing a snapshot needs is lost; after the follow-up prune the repository is consistent; direct "
